@@ -138,4 +138,85 @@ def pump (c : PumpCfg) : List ChanEv → List Byte → List (List Byte) × List 
   | .other :: evs, buf => pump c evs buf
   | .closed :: _, buf => ([], buf, if c.exitOnClosed then .exited else .spinning)
 
+/-! ### SSH pump + bounded queue `in_queue` + consumer (small-step)
+
+ssh.rs:59      `let (in_queue_tx, in_queue_rx) = mpsc::channel(32);`
+ssh.rs:91-97   `while let Some(index) = message_break.find(&in_buf) { … split_to(end) …;
+                in_queue_tx.send(message).await?; }`
+ssh.rs:171-173 `Receiver::recv` = `self.inner.recv().await` (the consumer: one dequeue per call)
+
+`pump` above treats the queue as unbounded. Here the queue has a capacity, and `send(..).await`
+on a full queue *waits* (back-pressure): the pump task is suspended inside the `while let` loop and
+does not look at the channel again before the message is enqueued.
+
+The `while let` loop is modelled as: on a data event all complete messages are split off at once
+(`pumpData .fixed`, i.e. `split`; the real loop splits them off one by one, which is the same list
+by `split_append`) into `todo`; then one message is moved to the queue per pump step.
+
+`wait = true` is the code as it is. `wait = false` is the variant that does not wait
+(`try_reserve()` and `break` out of the `while let` when the queue is full): the messages that were
+not enqueued stay in `in_buf`, and the loop is only entered again by the next `ChannelMsg::Data`. -/
+
+structure PQ where
+  /-- channel events that have not been processed yet -/
+  evs : List ChanEv
+  /-- `in_buf` -/
+  buf : List Byte
+  /-- complete messages the `while let` loop still has to enqueue (it is suspended in / about to call `send`) -/
+  todo : List (List Byte)
+  /-- contents of `in_queue`, oldest first -/
+  queue : List (List Byte)
+  /-- what `Receiver::recv` has returned so far, oldest first -/
+  delivered : List (List Byte)
+  /-- `exited`: the task has finished, `in_queue_tx` is dropped (what is queued can still be received) -/
+  st : PumpEnd
+  deriving Repr, DecidableEq
+
+def PQ.init (evs : List ChanEv) : PQ :=
+  { evs := evs, buf := [], todo := [], queue := [], delivered := [], st := .running }
+
+inductive PQAct where
+  | pump        -- the pump task is polled
+  | consume     -- the session calls `recv()` on the receive handle
+  deriving Repr, DecidableEq
+
+/-- the `msg = channel.wait()` arm of the `select!` (only reached when the `while let` loop is not running) -/
+def PQ.chanStep (s : PQ) : PQ :=
+  match s.evs with
+  | [] => s                                   -- blocked in `select!`
+  | .data bs :: evs =>
+    let (ms, buf') := pumpData .fixed s.buf bs
+    { s with evs := evs, buf := buf', todo := ms }
+  | .other :: evs => { s with evs := evs }
+  | .eof :: _ => { s with evs := [], st := .exited }      -- `break`: later events are never looked at
+  | .closed :: _ => { s with evs := [], st := .exited }
+
+/-- one poll of the pump task -/
+def PQ.pumpStep (wait : Bool) (cap : Nat) (s : PQ) : PQ :=
+  match s.todo with
+  | m :: ms =>
+    if s.queue.length < cap then { s with todo := ms, queue := s.queue ++ [m] }    -- `send` completes
+    else if wait then s                                                             -- `send(..).await` pending
+    else { s with todo := [], buf := (m :: ms).flatten ++ s.buf }                   -- `break`; bytes stay in `in_buf`
+  | [] => s.chanStep
+
+/-- one `recv()` of the consumer -/
+def PQ.consumeStep (s : PQ) : PQ :=
+  match s.queue with
+  | m :: q => { s with queue := q, delivered := s.delivered ++ [m] }
+  | [] => s        -- blocked (pump running) or `Err(DequeueMessage)` (pump exited): nothing delivered
+
+def PQ.step (wait : Bool) (cap : Nat) (s : PQ) : PQAct → PQ
+  | .pump => s.pumpStep wait cap
+  | .consume => s.consumeStep
+
+def PQ.run (wait : Bool) (cap : Nat) : List PQAct → PQ → PQ
+  | [], s => s
+  | a :: as, s => PQ.run wait cap as (s.step wait cap a)
+
+/-- the round-robin schedule: `n` times (pump, consume) -/
+def roundRobin : Nat → List PQAct
+  | 0 => []
+  | n + 1 => .pump :: .consume :: roundRobin n
+
 end Framing
